@@ -1641,6 +1641,40 @@ func envRead(fn *ssa.Function) (val, found ssa.Value, call *ssa.Call) {
 	for _, c := range callsTo(fn, "os.Getenv") {
 		call = c.(*ssa.Call)
 		val = call
+		// a pluggable source that defaults to the process environment: the value is the merge of os.Getenv(name) and
+		// of calls, with the same name, of a function held in a field the reference tree does not have
+		if call.Referrers() != nil {
+			for _, r := range *call.Referrers() {
+				phi, ok := r.(*ssa.Phi)
+				if !ok {
+					continue
+				}
+				all := true
+				for _, e := range phi.Edges {
+					if e == ssa.Value(call) {
+						continue
+					}
+					dc, ok := e.(*ssa.Call)
+					if !ok || dc.Call.IsInvoke() || dc.Call.StaticCallee() != nil || len(dc.Call.Args) != 1 || !sameFree(dc.Call.Args[0], call.Call.Args[0]) {
+						all = false
+						break
+					}
+					ld, ok := dc.Call.Value.(*ssa.UnOp)
+					if !ok {
+						all = false
+						break
+					}
+					fa, ok := ld.X.(*ssa.FieldAddr)
+					if !ok || isBaselineField(fieldOfAddr(fa)) {
+						all = false
+						break
+					}
+				}
+				if all {
+					val = phi
+				}
+			}
+		}
 	}
 	for _, c := range callsTo(fn, "os.LookupEnv") {
 		cc, ok := c.(*ssa.Call)
